@@ -169,10 +169,25 @@ def crash_states(pre, events, ropedir, side_stride=64):
     files = dict(pre)
     rel = lambda p: os.path.relpath(p, ropedir)  # noqa: E731
     yield ("before", dict(files))
+    pending = {}  # name -> bytes written since the file was opened / last flushed (may still sit in a user-space buffer)
+
+    def lost_buffers():
+        """The same instant, but everything still buffered in the dying process is lost."""
+        if not any(pending.values()):
+            return None
+        st = dict(files)
+        for nm, buf in pending.items():
+            if buf and nm in st and st[nm].endswith(buf):
+                st[nm] = st[nm][: len(st[nm]) - len(buf)]
+        return st
+
+    current = {}  # path a file was opened under -> the name its inode has now (renames of open files)
+
     for i, ev in enumerate(events):
         k = ev[0]
         if k == "open":
             name, mode = rel(ev[1]), ev[2]
+            current[ev[1]] = name
             if "w" in mode:
                 files[name] = b""
             elif "x" in mode or "a" in mode:
@@ -180,12 +195,17 @@ def crash_states(pre, events, ropedir, side_stride=64):
             elif "+" in mode:
                 files.setdefault(name, b"")
         elif k == "write":
-            name, data = rel(ev[1]), ev[2]
+            name, data = current.get(ev[1], rel(ev[1])), ev[2]
             cur = files.get(name, b"")
             side = name.endswith(".json")
             n = len(data)
             if side:
                 cuts = sorted(set(range(0, n, side_stride)) | {1, n - 1} & set(range(1, n)))
+            elif n > 4096:
+                # a large write: every byte of the first and last 512, a stride in between,
+                # and the neighbourhood of every 8 KiB block boundary
+                cuts = sorted(set(range(1, 512)) | set(range(n - 512, n)) | set(range(512, n, 211))
+                              | {b + d for b in range(8192, n, 8192) for d in (-1, 0, 1)})
             else:
                 cuts = range(1, n)
             for c in cuts:
@@ -194,16 +214,37 @@ def crash_states(pre, events, ropedir, side_stride=64):
                     part[name] = cur + data[:c]
                     yield ("write[%d]+%d" % (i, c), part)
             files[name] = cur + data
+            pending[name] = pending.get(name, b"") + data
+        elif k in ("flush", "close"):
+            pending.pop(current.get(ev[1], rel(ev[1])), None)
+            if k == "close":
+                current.pop(ev[1], None)
         elif k == "replace":
             src, dst = rel(ev[1]), rel(ev[2])
             if src in files:
                 files[dst] = files.pop(src)
+            if src in pending:
+                pending[dst] = pending.pop(src)
+            for opened, nm in list(current.items()):
+                if nm == src:
+                    current[opened] = dst
         elif k == "remove":
             files.pop(rel(ev[1]), None)
         elif k == "truncate":
             name = rel(ev[1])
             files[name] = files.get(name, b"")[: ev[2]]
         yield ("after[%d]:%s" % (i, k), dict(files))
+        lb = lost_buffers()
+        if lb is not None and k in ("replace", "open", "close", "remove"):
+            yield ("lostbuf[%d]:%s" % (i, k), lb)
+            # a buffered writer hands full 8 KiB blocks to the kernel as they fill up:
+            # of a large unflushed tail, whole blocks may already be in the file
+            for nm, buf in pending.items():
+                if len(buf) > 8192 and nm in files and files[nm].endswith(buf):
+                    for cut in range(8192, len(buf), 8192):
+                        st = dict(files)
+                        st[nm] = files[nm][: len(files[nm]) - len(buf) + cut]
+                        yield ("partbuf[%d]:%s+%d" % (i, k, cut), st)
 
 
 class CrashSaveEngine(Engine):
@@ -230,7 +271,8 @@ class CrashSaveEngine(Engine):
         "wall clock (simulated)",
     ]
     assumptions = [
-        "crash = process death: data handed to write() reaches the file in order (any prefix may be missing); a "
+        "crash = process death: data handed to write() reaches the file in order (any prefix may be missing; at event "
+        "boundaries additionally the variant in which everything still unflushed in the process is lost); a "
         "completed rename/replace is atomic; no reordering of rename against data (power loss is outside the model)",
         "the .json side files are not read back by rope; their writes are enumerated at event boundaries plus a stride",
         "validate_objectdb default (False)",
@@ -257,6 +299,13 @@ class CrashSaveEngine(Engine):
         if not swarm["prev_version"]:
             steps = [s for s in steps if s["op"] != "reopen"]
         swarm["liveness_every"] = rng.choice([1, 7, 31])
+        if rng.random() < 0.3:
+            # a data file larger than a buffered writer's block (8 KiB): old/new contents of a big module
+            files = [e["p"] for e in base["init"] if not e.get("dir")]
+            if files:
+                big = "x = 1\n" + "".join("# padding line %d padding padding padding padding\n" % i for i in range(rng.choice([250, 500])))
+                steps.append({"op": "do", "cs": {"id": 9001, "desc": "cs9001", "ops": [["edit", rng.choice(files), big]]}})
+                swarm["big_history"] = True
         base["steps"] = steps
         return base
 
@@ -310,7 +359,8 @@ class CrashSaveEngine(Engine):
             # sanity: replaying the whole trace must give what the real close left behind
             final = None
             for label, files in crash_states(pre, events, ropedir):
-                final = files
+                if label.startswith(("after", "before")):
+                    final = files
             if final != post:
                 raise kernel.HarnessError("crash-state model disagrees with the real close(): %r vs %r" % (
                     sorted((k, len(v)) for k, v in (final or {}).items()), sorted((k, len(v)) for k, v in post.items())))
